@@ -145,6 +145,41 @@ def check_stack_like(ctx, rp, q, listname, first_wins_target):
                                   'data are not stacked in argument order'))
         else:
             ctx.undec('R-ORDER', '%s:%d' % (q, c.lineno), where, 'definition of %s not understood: %s' % (nm, norm(st)[:60]))
+    # R-ONCE: a sequence argument that is materialised with list(...) may be a one-shot iterable: nothing else may iterate it
+    for a_ in fn.args.args:
+        pn = a_.arg
+        mats = [c for c in walk_expr(fn) if isinstance(c, ast.Call) and dotted(c.func) in ('list', 'tuple') and len(c.args) == 1 and isinstance(c.args[0], ast.Name) and c.args[0].id == pn]
+        if not mats:
+            continue
+        others = []
+        for n_ in ast.walk(fn):
+            if isinstance(n_, ast.comprehension) and isinstance(n_.iter, ast.Name) and n_.iter.id == pn:
+                others.append(n_.iter)
+            if isinstance(n_, ast.For) and isinstance(n_.iter, ast.Name) and n_.iter.id == pn:
+                others.append(n_.iter)
+            if isinstance(n_, ast.Call) and dotted(n_.func) in ('sorted', 'enumerate', 'zip', 'map', 'sum', 'len', 'reversed') and any(isinstance(x, ast.Name) and x.id == pn for x in n_.args):
+                others.append(n_)
+        # a re-binding p = list(p) before any other use makes later iterations harmless
+        rebind = [st for st in iter_stmts(fn.body) if isinstance(st, ast.Assign) and any(isinstance(t, ast.Name) and t.id == pn for t in st.targets)
+                  and any(m in list(ast.walk(st.value)) for m in mats)]
+        first_rebind = min([st.lineno for st in rebind]) if rebind else None
+        bad_ = [o for o in others if first_rebind is None or o.lineno < first_rebind]
+        if len(mats) + len(bad_) > 1 and bad_:
+            ctx.violation(Finding('R-ONCE', rp, q, api.stmt_of(bad_[0]), 'the argument %s is iterated here and again by list(%s): a generator or other one-shot iterable is exhausted by the first pass, '
+                                  'so the files to stack (or their dimensions) are silently missing from the second' % (pn, pn)))
+        else:
+            ctx.ok('R-ONCE', '%s:%s' % (q, pn), where, 'consumed once (list(%s)); every later pass runs over the list' % pn)
+    # R-ATTRFIRST: global attributes of the result come from the first file
+    for c in walk_expr(fn):
+        if isinstance(c, ast.Call) and isinstance(c.func, ast.Attribute) and c.func.attr == 'addGlobalProperties' and c.args and isinstance(c.args[0], ast.Name):
+            x = c.args[0].id
+            loops_ = [l_ for l_ in ast.walk(fn) if isinstance(l_, ast.For) and l_.lineno < c.lineno and any(isinstance(n_, ast.Name) and n_.id == x for n_ in ast.walk(l_.target))
+                      and not any(n_ is c for n_ in ast.walk(l_))]
+            if loops_:
+                ctx.violation(Finding('R-ATTRFIRST', rp, q, api.stmt_of(c), 'global attributes are copied from %s after the loop `for %s in %s` has re-bound it: they come from the last file, not the first' % (
+                    x, norm(loops_[-1].target), norm(loops_[-1].iter))))
+            else:
+                ctx.ok('R-ATTRFIRST', '%s:%s' % (q, norm(c)[:40]), where, 'attributes copied from %s before any loop re-binds it' % x)
     # the receiver comes first
     if fn.args.args and fn.args.args[0].arg == 'self':
         for d in [st for st in iter_stmts(fn.body) if isinstance(st, ast.Assign) and any(isinstance(t, ast.Name) and t.id == listname for t in st.targets)]:
@@ -303,6 +338,8 @@ def run(ctx):
     for r, d in (('R-ORDER', 'file list reaches concatenate / stack in argument order'),
                  ('R-SUMLEN', 'stacked length = sum of the input lengths over the same list'),
                  ('R-MACONCAT', 'concatenation is numpy.ma.concatenate on every path'),
+                 ('R-ONCE', 'a sequence argument that may be a one-shot iterable is consumed exactly once'),
+                 ('R-ATTRFIRST', 'global attributes of a stacked file come from the first file'),
                  ('R-STACKAXIS', 'the concatenation axis is the position of the stack dimension in each variable'),
                  ('R-FIRSTWINS', 'an already stored non-stacked variable is never stored again'),
                  ('R-UNLIM', 'unlimited flags of stacked/shared dimensions propagated'),
